@@ -229,6 +229,10 @@ THREAD_PAIRS = {
     # the same after a long history of semantic-action calls in the process (process-wide caches at their working size), line events inside the modules that own shared state
     'semA_semB_warm': ('G1', ('a b', {'semantics': 'A'}), ('b a', {'semantics': 'B'})),
     'generated_two_objects': ('G1gen', ('a b', {'semantics': 'A'}), ('a', {})),
+    # concurrent COMPILATION: each thread compiles (tatsu.compile: bootstrap parser, compile cache, model initialisation) and then parses; switch points are
+    # the call and line events inside the modules that own process-wide state (granularity 'only')
+    'compile_compile': ('COMPILE2', ('a b', {}), ('A b', {'ignorecase': True})),
+    'compile_same_key': ('COMPILE1', ('a b', {}), ('a !', {})),
 }
 G4 = "start: 'a' 'b' $ ;\n"
 
@@ -254,6 +258,12 @@ def _thread_setup(pair, uniq, fast=False):
         objs = [ns['THParser'](), ns['THParser']()]           # two parser objects of one generated class
         parse = [objs[0].parse, objs[1].parse]
         third = ns['THParser']().parse
+    elif gname in ('COMPILE1', 'COMPILE2'):
+        # different names and grammars (COMPILE2) or one (name, grammar) key for both threads (COMPILE1: check-then-insert on the compile cache)
+        names = [f'THC{uniq}a', f'THC{uniq}b'] if gname == 'COMPILE2' else [f'THC{uniq}s'] * 2
+        gs = [G1, G2] if gname == 'COMPILE2' else [G1, G1]
+        return ([lambda: tatsu.compile(gs[0], name=names[0]).parse(t0, **settings(s0)), lambda: tatsu.compile(gs[1], name=names[1]).parse(t1, **settings(s1))],
+                (lambda: tatsu.compile(gs[0], name=names[0]).parse(t0, **settings(s0))))
     else:
         g = {'G1': G1, 'G2': G2, 'G3': G3, 'G4': G4}[gname]
         if fast:
@@ -290,6 +300,13 @@ def _thread_shape(r):
 
 HOT_FILES = ('tatsu/util/typetools.py', 'tatsu/util/boundeddict.py', 'tatsu/objectmodel/synth.py', 'tatsu/api/api.py')
 _WARMED = []
+COMPILE_FILES = ('tatsu/api/api.py', 'tatsu/objectmodel/synth.py', 'tatsu/peg/base.py')
+
+
+def _line_files(pair, gran='hot'):
+    if pair.startswith('compile'):
+        return COMPILE_FILES if gran == 'onlywide' else COMPILE_FILES[:1]
+    return HOT_FILES
 
 
 def _warm_history():
@@ -309,7 +326,7 @@ def thread_event_counts(pair, granularity):
     if pair.endswith('_warm'):
         _warm_history()
     thunks, _ = _thread_setup(pair, 'cnt' + granularity)
-    _, counts = run_schedule(thunks, [], granularity=granularity, line_files=HOT_FILES)
+    _, counts = run_schedule(thunks, [], granularity=granularity, line_files=_line_files(pair, granularity))
     return counts
 
 
@@ -339,7 +356,7 @@ def make_threads(spec):
         serial[0] += 1
         thunks, third = _thread_setup(pair, f'{who}_{lo}_{serial[0]}', fast=False)
         try:
-            results, counts = run_schedule(thunks, [(who, p)], granularity=gran, first=who, line_files=HOT_FILES)
+            results, counts = run_schedule(thunks, [(who, p)], granularity=gran, first=who, line_files=_line_files(pair, gran))
         except Deadlock as e:
             return False, 'deadlock', [p, str(e)]
         got = [_thread_shape(r) for r in results]
@@ -414,6 +431,8 @@ def plan(tier, seed):
         tplan = [('plain_ok_fail', 'call'), ('semA_semB_warm', 'hot'), ('ignorecase_vs_plain', 'call'), ('asmodel_vs_plain', 'call')]
     else:
         tplan = [(p, 'call') for p in THREAD_PAIRS if not p.endswith('_warm')] + [('semA_semB_warm', 'hot'), ('semA_semB_warm', 'line')] + [(p, 'line') for p in THREAD_PAIRS if not p.endswith('_warm')]
+    tplan = [(p, g) for p, g in tplan if not p.startswith('compile')]
+    tplan += [(p, 'only' if tier == 'quick' else 'onlywide') for p in THREAD_PAIRS if p.startswith('compile')]
     tpairs = sorted({p for p, _ in tplan})
     chunk = 320
     tcount = 0
@@ -422,6 +441,8 @@ def plan(tier, seed):
         for who in (0, 1):
             top = counts[who] + 9
             width = chunk if gran != 'line' else 4 * chunk
+            if gran == 'onlywide':
+                width = 160
             if gran == 'line':
                 top = min(top, width * 3)      # thorough, line granularity: the first 3840 line events of each thread (the rest is stated as outside)
             for lo in range(0, top, width):
@@ -442,13 +463,13 @@ def plan(tier, seed):
                        f'Thread schedules: two real threads parse with ONE compiled model (cold: never parsed with before) under a deterministic scheduler; the first thread is preempted at its '
                        f'p-th switch point (a call event of code under the tatsu package; line events too inside the modules that own process-wide state for the warm-history pair{"; every line event in the thorough tier" if tier != "quick" else ""}), the second thread runs to its end, the first resumes; p is a symbolic selector and the '
                        f'solver enumerates every switch point ({tcount} schedules over {len(tpairs)} pairs of parses that differ in text, outcome, semantics object, ignorecase, whitespace, '
-                       'start rule, parseinfo, model building; plus two objects of one generated parser class). Both results and a third parse afterwards must equal the sequential results.',
+                       'start rule, parseinfo, model building; plus two objects of one generated parser class; plus two threads that each COMPILE and then parse — two grammars under two names, and one (name, grammar) key for both — preempted at the lines of the modules that own the compile cache and the class registry). Both results and a third parse afterwards must equal the sequential results.',
         'functions_encoded': ['tatsu.peg.base:Grammar.parse/optimized/_do_parse/newctx, tatsu.contexts.engine:ParserEngine.parse/bound and everything a parse calls, under two interleaved threads (vt/sched.py)',
                               'tatsu.api.api:compile/parse/to_python_sourcecode (compile cache)', 'tatsu.peg.base:Grammar.parse/new_parse_config/optimized', 'tatsu.contexts.core:find_cached_semantic_action',
                               'tatsu.util.typetools:BoundCallable._BIND_CACHE', 'tatsu.objectmodel.synth:synthesize registry', 'tatsu.config:ParserConfig.override', 'tatsu.contexts.engine:ParserEngine.bound (config restore)'],
         'bounds': f'histories of up to {k} calls (quick: all of length 1, and of length 2 after the 6 state-leaving calls; thorough: all of length 3) over a pool of {len(POOL_NAMES)} calls x every probed call; non-mutation for 4 (grammar, settings) pairs and texts of 2..{3 if tier == "quick" else 4} code points',
         'outside': 'Thread schedules with more than one preemption window (context bound 1: [A prefix][B whole][A rest], both roles), preemption between two byte-codes of one line '
                    '(switch points are call events in the quick tier, call and line events in the thorough tier), more than two threads, free-threaded builds; concurrent COMPILATION '
-                   '(tatsu.compile in two threads) is not scheduled. Longer histories; other grammars.',
+                   '(tatsu.compile in two threads) is scheduled only at the call/line events of tatsu/api/api.py (quick) or of api.py, objectmodel/synth.py and peg/base.py (thorough), not inside the bootstrap parse. Longer histories; other grammars.',
         'assumptions': ['the fresh-interpreter observable is the oracle', 'the battery of 9 texts distinguishes the configurations of the pool'],
     }
